@@ -1,6 +1,7 @@
 package main
 
 import (
+	"go/constant"
 	"fmt"
 	"go/token"
 	"go/types"
@@ -391,8 +392,30 @@ func reflectTypeOf(v ssa.Value) ssa.Value {
 }
 
 func reflectSetJustified(c *ssa.Call, recv, arg ssa.Value) (bool, string) {
+	if phi, ok := arg.(*ssa.Phi); ok && len(phi.Edges) > 0 {
+		// one Set after the branches that compute the value: each incoming
+		// value is justified under the outcomes that hold on its edge
+		for k, e := range phi.Edges {
+			pred := phi.Block().Preds[k]
+			facts := factsAt(pred)
+			if ifi, ok := pred.Instrs[len(pred.Instrs)-1].(*ssa.If); ok && pred.Succs[0] != pred.Succs[1] {
+				facts = append(facts, edgeFact{Cond: ifi.Cond, Truth: pred.Succs[0] == phi.Block(), From: pred})
+			}
+			if _, again := e.(*ssa.Phi); again {
+				return false, "no test relates the type of the value to the type of the field it is stored into"
+			}
+			if ok, why := reflectSetJustifiedAt(facts, recv, e); !ok {
+				return false, why
+			}
+		}
+		return true, "every value merged into the argument is justified on its own branch"
+	}
+	return reflectSetJustifiedAt(factsAt(c.Block()), recv, arg)
+}
+
+func reflectSetJustifiedAt(facts []edgeFact, recv, arg ssa.Value) (bool, string) {
 	// (i) dominating val.Type() == field.Type()
-	for _, ef := range expandFacts(factsAt(c.Block())) {
+	for _, ef := range expandFacts(facts) {
 		bo, ok := ef.Cond.(*ssa.BinOp)
 		if !ok || bo.Op != token.EQL || !ef.Truth {
 			continue
@@ -510,16 +533,7 @@ func checkNames(p *Prog, r *Report, chk *ssa.Function) {
 			r.fail("anchor %s not found", name)
 			continue
 		}
-		good := false
-		eachInstr(f, func(ins ssa.Instruction) {
-			if bo, ok := ins.(*ssa.BinOp); ok && (bo.Op == token.EQL || bo.Op == token.NEQ) {
-				for _, pr := range [][2]ssa.Value{{bo.X, bo.Y}, {bo.Y, bo.X}} {
-					if key, ok := tagGetOf(pr[1]); ok && key == "json" && pr[0] == ssa.Value(f.Params[1]) {
-						good = true
-					}
-				}
-			}
-		})
+		good := locatesByJSONTag(f, f.Params[1], 0)
 		r.decide(good, "C20.names", name+":lookup-by-json-tag", p.pos(f.Pos()), "finds the field whose json tag equals the key", name+" does not locate the field by comparing the key with the json tag")
 	}
 }
@@ -554,6 +568,26 @@ func checkTypeList(p *Prog, r *Report, chk *ssa.Function) {
 			}
 		}
 	})
+	// or a lookup of the type's String() in a package-level set of constants
+	eachInstr(chk, func(ins ssa.Instruction) {
+		lk, ok := ins.(*ssa.Lookup)
+		if !ok {
+			return
+		}
+		c, _ := callOf(lk.Index)
+		if c == nil || !c.Common().IsInvoke() || c.Common().Method.Name() != "String" {
+			return
+		}
+		if ld, ok := lk.X.(*ssa.UnOp); ok && ld.Op == token.MUL {
+			if gl, ok := ld.X.(*ssa.Global); ok {
+				if set, ok := constStringSet(p, gl); ok {
+					for k := range set {
+						got[k] = true
+					}
+				}
+			}
+		}
+	})
 	for ts := range want {
 		r.decide(got[ts], "C20.type-list", "Check:accepts "+ts, p.pos(chk.Pos()), "listed", "Check does not accept attribute fields of type "+ts+" although the kind table supports it")
 	}
@@ -571,6 +605,7 @@ func checkTypeList(p *Prog, r *Report, chk *ssa.Function) {
 
 // ---- BuildType ~ Wrap --------------------------------------------------
 
+var isAttrRe = regexp.MustCompile(`^\(?TAG\(FIELD\([^()]*\),api\) == "attr"\)?$`)
 var fieldIdxRe = regexp.MustCompile(`FIELD\((\d+)\)`)
 
 func reflectQuestion(cond string, st *istate, ifi *ssa.If) string {
@@ -579,7 +614,8 @@ func reflectQuestion(cond string, st *istate, ifi *ssa.If) string {
 		it = "#" + m[1]
 	}
 	switch {
-	case strings.Contains(cond, `TAG(`) && strings.Contains(cond, `,api)`) && strings.Contains(cond, `== "attr"`):
+	case isAttrRe.MatchString(cond):
+		// the whole tag, as Check tests it; a predicate on a part of the tag is a different question
 		return "is-attr" + it
 	case strings.Contains(cond, `,api),`) && strings.Contains(cond, `== "rel"`):
 		return "is-rel" + it
@@ -718,11 +754,13 @@ func checkBuildWrapAgreement(p *Prog, r *Report) {
 	}
 	nCmp := 0
 	bad := ""
-	for _, a := range bp {
-		for _, b := range wp {
+	matchedA, matchedB := map[int]bool{}, map[int]bool{}
+	for ia, a := range bp {
+		for ib, b := range wp {
 			if !sameQ(a, b) {
 				continue
 			}
+			matchedA[ia], matchedB[ib] = true, true
 			nCmp++
 			ea, eb := append([]string{}, a.effects...), append([]string{}, b.effects...)
 			sort.Strings(ea)
@@ -732,6 +770,50 @@ func checkBuildWrapAgreement(p *Prog, r *Report) {
 			}
 		}
 	}
+	// the two siblings ask the same questions: a path of one whose answers no
+	// path of the other shares means one of them selects fields by a different
+	// predicate (e.g. a part of the api tag instead of the whole tag)
+	// (only the selecting questions - is it an attribute, is it a relationship -
+	// are compared here: cardinality or the inverse may be computed as a value
+	// by one sibling and by a branch in the other)
+	selectors := func(b buildPath) string {
+		var ks []string
+		for q, v := range b.answer {
+			if strings.HasPrefix(q, "is-attr") || strings.HasPrefix(q, "is-rel") {
+				ks = append(ks, q+"="+v)
+			}
+		}
+		sort.Strings(ks)
+		return strings.Join(ks, " ")
+	}
+	selA, selB := map[string]bool{}, map[string]bool{}
+	for _, a := range bp {
+		selA[selectors(a)] = true
+	}
+	for _, b := range wp {
+		selB[selectors(b)] = true
+	}
+	_, _ = matchedA, matchedB
+	lonely := ""
+	for k := range selA {
+		if !selB[k] && (lonely == "" || k < lonely) {
+			lonely = k
+		}
+	}
+	if lonely != "" {
+		lonely = "BuildType decides on [" + lonely + "], which no path of Wrap does"
+	} else {
+		for k := range selB {
+			if !selA[k] && (lonely == "" || k < lonely) {
+				lonely = k
+			}
+		}
+		if lonely != "" {
+			lonely = "Wrap decides on [" + lonely + "], which no path of BuildType does"
+		}
+	}
+	r.decide(lonely == "", "C20.sibling-agreement", "BuildType~Wrap:same-questions", p.pos(wr.Pos()), "every path of either function has a partner with the same answers about the struct's fields",
+		"BuildType and Wrap do not select fields by the same predicates: "+lonely+"; the built type and the wrapper then disagree on structs that Check accepts")
 	r.count("build_wrap_path_pairs_compared", nCmp)
 	r.floor("BuildType/Wrap path pairs with identical answers", nCmp, 10)
 	r.decide(bad == "", "C20.sibling-agreement", "BuildType~Wrap", p.pos(bt.Pos()), fmt.Sprintf("%d path pairs with identical answers store identical attributes and relationships", nCmp),
@@ -892,6 +974,9 @@ func checkC20IDAndPurity(p *Prog, r *Report) {
 					continue
 				}
 				if gl, ok := (*op).(*ssa.Global); ok && gl.Pkg != nil && gl.Pkg.Pkg.Path() == targetPkgPath {
+					if _, isSet := constStringSet(p, gl); isSet {
+						continue // a set of constants filled at package initialisation and only looked up afterwards
+					}
 					nG++
 					r.bad("C20.check-pure", funcName(g)+":global:"+gl.Name(), p.pos(ins.Pos()), "Check consults the package-level variable "+gl.Name()+": its verdict for a struct type can depend on which other types were checked before")
 				}
@@ -950,9 +1035,48 @@ func impliedByResult(g *ssa.Function, value bool) []edgeFact {
 // the Wrapper assert when they read such a field.
 func checkRelFieldTypes(p *Prog, r *Report, chk *ssa.Function) {
 	seen := map[string]bool{}
-	eachInstr(chk, func(ins ssa.Instruction) {
+	// only comparisons made for fields selected as relationships count: the
+	// block is reached under <x> == "rel", or the comparison sits in a small
+	// helper called from such a block
+	underRel := func(b *ssa.BasicBlock) bool {
+		for _, ef := range expandFacts(factsAt(b)) {
+			if bo, ok := ef.Cond.(*ssa.BinOp); ok && bo.Op == token.EQL && ef.Truth {
+				if s, ok := constString(bo.Y); ok && s == "rel" {
+					return true
+				}
+				if s, ok := constString(bo.X); ok && s == "rel" {
+					return true
+				}
+			}
+		}
+		return false
+	}
+	inScope := map[*ssa.Function]bool{}
+	anyRel := false
+	for _, b := range chk.Blocks {
+		if !underRel(b) {
+			continue
+		}
+		anyRel = true
+		for _, ins := range b.Instrs {
+			if c, ok := ins.(*ssa.Call); ok {
+				if g := c.Common().StaticCallee(); g != nil && g.Blocks != nil && smallHelper(g) {
+					inScope[g] = true
+				}
+			}
+		}
+	}
+	var fns []*ssa.Function
+	fns = append(fns, chk)
+	for g := range inScope {
+		fns = append(fns, g)
+	}
+	eachInstrOf(fns, func(ins ssa.Instruction) {
 		bo, ok := ins.(*ssa.BinOp)
 		if !ok || (bo.Op != token.NEQ && bo.Op != token.EQL) {
+			return
+		}
+		if anyRel && ins.Parent() == chk && !underRel(ins.Block()) {
 			return
 		}
 		for _, pr := range [][2]ssa.Value{{bo.X, bo.Y}, {bo.Y, bo.X}} {
@@ -969,4 +1093,117 @@ func checkRelFieldTypes(p *Prog, r *Report, chk *ssa.Function) {
 		}
 	})
 	r.decide(seen["string"] && seen["[]string"], "C20.rel-types", "Check:relationship-field-types", p.pos(chk.Pos()), "a relationship field must be exactly string or []string", "Check does not compare a relationship field's type with exactly \"string\" and \"[]string\": it accepts fields (e.g. of a defined string type) on which Wrap, Copy and MarshalResource's .(string) / .([]string) assertions panic")
+}
+
+// locatesByJSONTag: f (or a small lookup helper it hands the key to) compares
+// the key with a field's json tag.
+func locatesByJSONTag(f *ssa.Function, key ssa.Value, depth int) bool {
+	good := false
+	eachInstr(f, func(ins ssa.Instruction) {
+		switch x := ins.(type) {
+		case *ssa.BinOp:
+			if x.Op == token.EQL || x.Op == token.NEQ {
+				for _, pr := range [][2]ssa.Value{{x.X, x.Y}, {x.Y, x.X}} {
+					if k, ok := tagGetOf(pr[1]); ok && k == "json" && pr[0] == key {
+						good = true
+					}
+				}
+			}
+		case *ssa.Call:
+			g := x.Common().StaticCallee()
+			if g == nil || depth > 1 || !smallHelper(g) {
+				return
+			}
+			for i, a := range x.Common().Args {
+				if a == key && i < len(g.Params) && locatesByJSONTag(g, g.Params[i], depth+1) {
+					good = true
+				}
+			}
+		}
+	})
+	return good
+}
+
+// constStringSet: gl is a package-level map[string]bool that the package
+// initialiser fills with constant keys (value true) and that every other
+// function only looks up (m[k], len(m)): effectively a constant set. The
+// keys are returned.
+func constStringSet(p *Prog, gl *ssa.Global) (map[string]bool, bool) {
+	mt, ok := deref(gl.Type()).Underlying().(*types.Map)
+	if !ok {
+		return nil, false
+	}
+	if kb, ok := mt.Key().Underlying().(*types.Basic); !ok || kb.Info()&types.IsString == 0 {
+		return nil, false
+	}
+	if vb, ok := mt.Elem().Underlying().(*types.Basic); !ok || vb.Kind() != types.Bool {
+		return nil, false
+	}
+	var mk *ssa.MakeMap
+	good := true
+	for _, f := range p.Funcs {
+		isInit := f.Name() == "init" && f.Signature.Recv() == nil && f.Parent() == nil
+		eachInstr(f, func(ins ssa.Instruction) {
+			uses := false
+			for _, op := range ins.Operands(nil) {
+				if *op == ssa.Value(gl) {
+					uses = true
+				}
+			}
+			if !uses {
+				return
+			}
+			switch x := ins.(type) {
+			case *ssa.Store:
+				m, isMk := x.Val.(*ssa.MakeMap)
+				if !isInit || x.Addr != ssa.Value(gl) || !isMk || mk != nil {
+					good = false
+					return
+				}
+				mk = m
+			case *ssa.UnOp:
+				if x.Op != token.MUL {
+					good = false
+					return
+				}
+				for _, ref := range referrers(x) {
+					switch y := ref.(type) {
+					case *ssa.Lookup:
+						if y.X != ssa.Value(x) {
+							good = false
+						}
+					case *ssa.Call:
+						if builtinName(y.Common()) != "len" {
+							good = false
+						}
+					case *ssa.DebugRef:
+					default:
+						good = false
+					}
+				}
+			default:
+				good = false
+			}
+		})
+	}
+	if !good || mk == nil {
+		return nil, false
+	}
+	set := map[string]bool{}
+	for _, ref := range referrers(mk) {
+		switch y := ref.(type) {
+		case *ssa.MapUpdate:
+			k, ok := constString(y.Key)
+			c, isC := y.Value.(*ssa.Const)
+			if !ok || !isC || c.Value == nil || c.Value.Kind() != constant.Bool || !constant.BoolVal(c.Value) || y.Map != ssa.Value(mk) {
+				return nil, false
+			}
+			set[k] = true
+		case *ssa.Store:
+		case *ssa.DebugRef:
+		default:
+			return nil, false
+		}
+	}
+	return set, len(set) > 0
 }
